@@ -185,7 +185,7 @@ func Begin(c Config) {
 	pSeam = uint64(c.PSeam * 4294967296.0)
 	opBudget = c.OpBudget
 	if opBudget == 0 {
-		opBudget = 200000
+		opBudget = 50000000
 	}
 	if !recMode {
 		for _, s := range c.Switches {
@@ -671,3 +671,16 @@ func RUnlock(m *sync.RWMutex) {
 	}
 	yieldPoint(-6, true)
 }
+
+var counterfactual bool
+
+// SetCounterfactual switches the counterfactual repairs of known findings on
+// or off (see /verif/sim/cf_patch.py).  Off by default.
+//
+//go:norace
+func SetCounterfactual(on bool) { counterfactual = on }
+
+// Counterfactual reports whether counterfactual repairs are on.
+//
+//go:norace
+func Counterfactual() bool { return counterfactual }
